@@ -31,6 +31,14 @@ Theorem C09_keys_listing : forall R T (p : path) (a : bool) ks,
 Proof. exact keys_listing. Qed.
 Print Assumptions C09_keys_listing.
 
+(** The visit ([visititems] as the depth-first walk over [_children]) shows exactly the nodes
+    below the start group that are visible in the overlay, with their kinds and values. *)
+Theorem C09_visit_exact : forall R T (p x : path) e, Sim R T ->
+  (x, e) ∈ m_visit_go (S (size (viewmap R))) R p <->
+  exists r, r <> [] /\ is_node_path r = true /\ x = r ++ p /\ vget R x = Some e.
+Proof. exact visit_exact. Qed.
+Print Assumptions C09_visit_exact.
+
 (** Every read request (lookup, membership, listings, visit, value) has the same answer. *)
 Theorem C09_read_equiv : forall R T, Sim R T -> forall rq, read_m R rq = read_t T rq.
 Proof. exact read_equiv. Qed.
